@@ -27,6 +27,7 @@ type Ctx struct {
 	bkCache      map[string]*bkRun
 	unclassified map[string]bool
 	frontendFn   func(token.Pos) bool
+	fedCache     map[*types.Var]bool
 	ctorOnly     func(fn *types.Func) bool
 	cbReach      map[*types.Func]string
 	curEngine    *pw.Engine
@@ -367,6 +368,12 @@ func (c *Ctx) featurePath(p *pw.Path) bool {
 			}
 			if _, ownerKnown := knownOwners()[owner]; !ownerKnown {
 				continue // a new helper type: no statement about it
+			}
+			// a new UNEXPORTED field is API growth only when it is fed by a new exported option / entry point; internal state derived
+			// from what the reference API already offers (a flag set when the configured backend is a NoOp, …) is reachable without
+			// any new API: paths through it are judged like any other
+			if !ev.Field.Exported() && !c.fedByNewAPI(ev.Field) {
+				continue
 			}
 			v = ev.Value
 		case ev.Kind == pw.EvCall && ev.Callee != nil && ev.Callee.Pkg() == c.Pkg.Types && ev.Callee.Exported() && len(ev.Results) > 0:
@@ -853,4 +860,77 @@ func gtMinus1(p *pw.Path, e *pw.Engine, v *pw.Val) tri {
 		return triFalse
 	}
 	return triUnknown
+}
+
+// fedByNewAPI: some assignment to the (unexported, new) field in the package has a right-hand side that mentions a new exported
+// field or function, or sits in a new exported function.
+func (c *Ctx) fedByNewAPI(f *types.Var) bool {
+	if c.fedCache == nil {
+		c.fedCache = map[*types.Var]bool{}
+	}
+	f = f.Origin()
+	if v, ok := c.fedCache[f]; ok {
+		return v
+	}
+	info := c.Pkg.TypesInfo
+	mentionsNew := func(e ast.Expr) bool {
+		found := false
+		ast.Inspect(e, func(x ast.Node) bool {
+			id, ok := x.(*ast.Ident)
+			if !ok || found {
+				return !found
+			}
+			switch o := info.Uses[id].(type) {
+			case *types.Var:
+				if o.IsField() && o.Exported() && o.Pkg() == c.Pkg.Types {
+					owner := fieldOwnerName(o)
+					if owner != "" && !knownFields[owner+"."+fname(o)] && !knownFields[owner+"."+o.Name()] {
+						found = true
+					}
+				}
+			case *types.Func:
+				if c.isNewAPI(o) {
+					found = true
+				}
+			}
+			return !found
+		})
+		return found
+	}
+	fed := false
+	c.eachFuncDecl(func(fd *ast.FuncDecl, fn *types.Func) {
+		if fed {
+			return
+		}
+		inNew := c.isNewAPI(fn)
+		ast.Inspect(fd.Body, func(x ast.Node) bool {
+			switch y := x.(type) {
+			case *ast.AssignStmt:
+				for i, l := range y.Lhs {
+					sel, ok := ast.Unparen(l).(*ast.SelectorExpr)
+					if !ok {
+						continue
+					}
+					if fv, _ := info.Uses[sel.Sel].(*types.Var); fv == nil || fv.Origin() != f {
+						continue
+					}
+					if inNew {
+						fed = true
+					}
+					if len(y.Rhs) == len(y.Lhs) && mentionsNew(y.Rhs[i]) || len(y.Rhs) == 1 && mentionsNew(y.Rhs[0]) {
+						fed = true
+					}
+				}
+			case *ast.KeyValueExpr:
+				if id, ok := y.Key.(*ast.Ident); ok {
+					if fv, _ := info.Uses[id].(*types.Var); fv != nil && fv.Origin() == f && (inNew || mentionsNew(y.Value)) {
+						fed = true
+					}
+				}
+			}
+			return !fed
+		})
+	})
+	c.fedCache[f] = fed
+	return fed
 }
